@@ -110,7 +110,7 @@ def cli_case(rng):
     ts = []
     for i in range(k):
         cfg = treegen.Cfg(n_min=1, n_max=7, disc=(system == "gap"), p_disc=0.5, p_unary=0.2, p_punct=0.0, none_fields=False,
-                          labels=treegen.PLAIN_LABELS, words=["a", "b", "Haus", "der"], max_arity=4, edges=["HD", "NK", "--"])
+                          labels=treegen.PLAIN_LABELS, words=["a", "b", "Haus", "der", "10.000", "x-y"], max_arity=4, edges=["HD", "NK", "--"])
         t = treegen.gen_tree(rng, cfg)
         t.data['sid'] = i + 1
         s = io.StringIO()
